@@ -1,3 +1,4 @@
+import XdsVerif.Proofs.Flow
 import XdsVerif.Proofs.Seq
 import XdsVerif.Proofs.Interest
 import XdsVerif.Properties.C01
@@ -140,5 +141,51 @@ example : (run C01.exCfg init
      .touch .cds "a" 5, .evict .cds "a" 40, .senderSend false]).map
     (fun s => (s.queue.length, lastNames .cds (onStream s.recvStream s.wire), s.watched .cds))
     = some (0, some ["b"], some ["b"]) := by decide
+
+/-! ## The request path at goroutine granularity (`Model/Flow.lean`): the bounded channel, the sender, the client lock
+
+`Seq` treats the channel as unbounded. The theorems below are about the machine that has the capacity the source
+has (`Generated.seq.reqCap`), producers that wait for room while holding `c.mu`, a sender whose `Send` can be stalled
+for any length of time, and reconnects; requests are opaque there, so they speak about every request alike —
+subscription changes, acknowledgements, eviction notices. -/
+
+theorem facts_flow : Generated.flow = Flow.expectedFacts := by decide
+
+/-- the capacity of the request channel as the source has it -/
+abbrev cap : Nat := Generated.seq.reqCap
+
+/-- **each change is followed by a request** (channel level): a request handed to `sendRequest` is, at any later moment,
+still queued, on the wire, in `Send`, dropped because the sender had no usable stream (a reconnect re-subscribes), or
+drained by a reconnect (which re-subscribes); it is never silently discarded because the channel was full -/
+theorem request_never_discarded {α : Type} (ls : List (Flow.Lbl α)) (s : Flow.S α) (h : Flow.run cap Flow.init ls = some s) :
+    ∀ r ∈ s.enq, r ∈ s.queue ∨ r ∈ s.sent.map (·.2) ∨ r ∈ Flow.inflight s ∨ r ∈ s.dropped.map (·.1) ∨ r ∈ s.drained :=
+  Flow.no_request_lost (Flow.reachable h)
+
+/-- requests reach the control plane in the order they were produced, none twice: the last request of a type on the wire
+is the last one produced (which lists the current interest set, `last_request_tracks_interest`) -/
+theorem wire_in_production_order {α : Type} (ls : List (Flow.Lbl α)) (s : Flow.S α) (h : Flow.run cap Flow.init ls = some s) :
+    (s.sent.map (·.2)).Sublist s.enq :=
+  Flow.wire_subsequence (Flow.reachable h)
+
+/-- **on a stream that has not failed, at quiescence the control plane has received exactly the requests produced, in
+order** — however full the channel was on the way and however long `Send` was stalled (the stalled burst of the harness) -/
+theorem quiescent_wire_complete {α : Type} (ls : List (Flow.Lbl α)) (s : Flow.S α) (h : Flow.run cap Flow.init ls = some s)
+    (hn : Flow.NoFailure s) (hq : s.queue = []) (hi : Flow.inflight s = []) : s.sent.map (·.2) = s.enq :=
+  Flow.live_wire_eq_enq (Flow.reachable h) hn hq hi
+
+/-- the channel never holds more than its capacity; a failed `Send` only ever happens on a dead stream -/
+theorem channel_bounded {α : Type} (ls : List (Flow.Lbl α)) (s : Flow.S α) (h : Flow.run cap Flow.init ls = some s) :
+    s.queue.length ≤ cap ∧ ∀ r k, (r, some k) ∈ s.dropped → s.dead k = true :=
+  ⟨(Flow.reachable h).inv.bound, (Flow.reachable h).hist.dropDead⟩
+
+/-! non-vacuity: three lookups miss while `Send` is stalled, the connection resumes, everything reaches the wire in order -/
+example : (Flow.run 2 (Flow.init : Flow.S Nat)
+    [.pStart 0 10, .pLock 0, .pEnq 0, .sTakeReq, .stall, .pStart 1 11, .pLock 1, .pEnq 1, .pStart 2 12, .pLock 2, .pEnq 2,
+     .pStart 3 13, .pLock 3, .resume, .sSendDone, .sTakeReq, .pEnq 3, .sSendDone, .sTakeReq, .sSendDone, .sTakeReq, .sSendDone]).map
+    (fun s => (s.sent, s.enq, s.queue)) = some ([(1, 10), (1, 11), (1, 12), (1, 13)], [10, 11, 12, 13], []) := by decide
+/-- while the channel is full the fourth producer cannot enqueue -/
+example : (Flow.run 2 (Flow.init : Flow.S Nat)
+    [.pStart 0 10, .pLock 0, .pEnq 0, .sTakeReq, .stall, .pStart 1 11, .pLock 1, .pEnq 1, .pStart 2 12, .pLock 2, .pEnq 2,
+     .pStart 3 13, .pLock 3, .pEnq 3]).isNone = true := by decide
 
 end XdsVerif.Properties.C03
